@@ -82,10 +82,9 @@ theorem err_polynomial (coef : Nat → K) (a b : K) (hab : a ≠ b) :
 theorem k15_degenerate (g : K → K) (a : K) : K15 g a a = 0 := by
   rw [K15_affine]; simp
 
--- non-vacuity: x ↦ 3 - x + 2x² on [1, 4] is `polyOn` with coef = (4, 15, 18, 0, …)
-example : polyOn 23 (fun j => if j = 0 then (4 : ℚ) else if j = 1 then 15 else if j = 2 then 18 else 0)
-    1 4 2 = 3 - 2 + 2 * 2 ^ 2 := by
-  simp [polyOn, Finset.sum_range_succ]; norm_num
+-- non-vacuity: 3 + 2 (x - 1) on [1, 4] is `polyOn` with coef = (3, 6, 0, …)
+example : polyOn 23 (fun j => if j = 0 then (3 : ℚ) else if j = 1 then 6 else 0) 1 4 2 = 5 := by
+  norm_num [polyOn, Finset.sum_range_succ]
 
 /-! ## B. Gauss–Kronrod: operator() and the bisection refinement (model) -/
 
@@ -99,7 +98,9 @@ def Plan.negate {α : Type} : Plan α → Plan α
 /-- a NaN bound gives no value -/
 theorem dispatch_nan {α : Type} [LinearOrder α] (ca cb : Bnd) (a b : α)
     (h : ca = .nan ∨ cb = .nan) : dispatch ca cb a b = .none := by
-  rcases h with h | h <;> subst h <;> cases ca <;> cases cb <;> simp [dispatch]
+  rcases h with rfl | rfl
+  · simp [dispatch]
+  · cases ca <;> simp [dispatch]
 
 /-- swapping the bounds calls the *same* primitive with the *same* arguments and negates the result:
 `I(b, a) = −I(a, b)` exactly (finite bounds in either order, and every combination with ±∞) -/
@@ -190,9 +191,10 @@ i.e. `b = (1/6, 1/3, 1/3, 1/6)`, `c = (0, 1/2, 1/2, 1)` -/
 theorem rk4_butcher (P : K → K) (h t y : K) :
     (rk4Step P h (t, y)).2 = y + h * (P t / 6 + P (t + h / 2) / 3 + P (t + h / 2) / 3 + P (t + h) / 6) := by
   simp only [rk4Step, Gen.rk4_y1, fnWith, List.headD_cons]
-  have e1 : t + 1 / 2 * h = t + h / 2 := by ring
   have e2 : t + 1 / 2 * h + 1 / 2 * h = t + h := by ring
-  rw [e2, e1]; ring
+  have e1 : t + 1 / 2 * h = t + h / 2 := by ring
+  rw [e2, e1]
+  ring
 
 /-- RungeKutta42::iterate, one accepted step of size `tf − t` (the traced path): the order-4
 solution of `y' = a₀ + … + a₃ t³` is exact -/
@@ -335,24 +337,25 @@ def CtlInv (tf : K) (s : Ctl K) : Prop :=
 
 theorem ctlInit_inv (ti tf dt : K) (s : Ctl K) (h : ctlInit 0 ti tf dt = some s) :
     CtlInv tf s ∧ s.t = ti := by
-  unfold ctlInit at h
-  simp only [] at h
-  split at h
-  · simp at h
-  · rename_i hneg
-    injection h with h
-    subst h
-    have hd := not_lt.mp hneg
-    refine ⟨⟨?_, hd, ?_⟩, rfl⟩
-    · simp only []
-      split at hd <;> [skip; skip] <;> rename_i hc
-      · linarith
-      · have := not_lt.mp hc; linarith
-    · intro _
-      simp only []
-      split
-      · exact le_rfl
-      · rename_i hc; exact not_lt.mp hc
+  have key : s.t ≤ tf ∧ 0 ≤ s.dt ∧ s.dt ≤ tf - s.t ∧ s.t = ti := by
+    unfold ctlInit at h
+    by_cases hc : tf - ti < dt
+    · simp only [hc, if_true] at h
+      by_cases hd : tf - ti < 0
+      · simp [hd] at h
+      · simp only [hd, if_false, Option.some.injEq] at h
+        subst h
+        have := not_lt.mp hd
+        exact ⟨by simp only []; linarith, this, le_rfl, rfl⟩
+    · simp only [hc, if_false] at h
+      by_cases hd : dt < 0
+      · simp [hd] at h
+      · simp only [hd, if_false, Option.some.injEq] at h
+        subst h
+        have h1 := not_lt.mp hd
+        have h2 := not_lt.mp hc
+        exact ⟨by simp only []; linarith, h1, h2, rfl⟩
+  exact ⟨⟨key.1, key.2.1, fun _ => key.2.2.1⟩, key.2.2.2⟩
 
 theorem ctlBody_inv (tf : K) (accept : Bool) (m : K) (hm : 0 ≤ m) (s : Ctl K) (hi : CtlInv tf s)
     (hg : s.t < tf - 1 / 2 * s.dt) : CtlInv tf (ctlBody tf (1 / 2) accept m s) := by
@@ -412,6 +415,8 @@ theorem ctlBody_clamped_reaches_tf (tf m : K) (s : Ctl K) (hc : s.dt = tf - s.t)
 theorem ctl_early_exit_witness :
     ctlInit (0 : ℚ) 0 1 (7 / 10) = some ⟨0, 7 / 10⟩ ∧
     ctlLoop (1 : ℚ) (1 / 2) [(true, 1)] ⟨0, 7 / 10⟩ = (⟨7 / 10, 7 / 10⟩, true) := by
-  constructor <;> decide
+  constructor
+  · norm_num [ctlInit]
+  · norm_num [ctlLoop, ctlBody]
 
 end TfelVerif.C12
